@@ -2,7 +2,7 @@ SPECIFICATION Spec
 CONSTANTS
   Denoms = {"aISLM", "utest"}
   BondDenom = "aISLM"
-  MaxLen = 4
+  MaxLen = 6
   Amt = "215"
   ValStake = "1000"
   PowerReduction = "1"
@@ -10,11 +10,11 @@ CONSTANTS
   FracDowntime <- MC_FracDowntime
   BurnVeto = TRUE
   BurnPrevote = TRUE
-  BurnQuorum = FALSE
-  ParamKeys = {}
-  MaxParamChanges = 0
-  Seeded = FALSE
-  Defects = {"bond_denom_only"}
+  BurnQuorum = TRUE
+  ParamKeys = {"sendDefault", "send", "tax", "burnVeto", "burnPrevote", "burnQuorum", "minDep", "erc20"}
+  MaxParamChanges = 2
+  Seeded = TRUE
+  Defects = {}
 INVARIANT MInv_P
 INVARIANT MInv_Model
 PROPERTY MStep_P
